@@ -984,6 +984,8 @@ func (x *Exec) run(f *frame) Val {
 				f.regs[f.idx[in]] = &ChanV{cap: x.concInt(x.get(f, in.Size), "chan size"), cvc: vclock{}}
 			case *ssa.Send:
 				x.chanSend(x.get(f, in.Chan).(*ChanV), x.get(f, in.X), x.pos(in))
+			case *ssa.Select:
+				f.regs[f.idx[in]] = x.selectStmt(f, in)
 			case *ssa.MakeSlice:
 				n := x.concInt(x.get(f, in.Len), "make len")
 				c := x.concInt(x.get(f, in.Cap), "make cap")
